@@ -36,6 +36,6 @@ PROFILE = machine.Profile(
      (1, 'delete_allocations'), (1, 'delete_inventory'), (1, 'delete_rp'),
      (1, 'update_rp')],
     oracles=[oracles.c04_oracle], nontrivial=nontrivial, steps=40,
-    boundaries=(8, 12, 13, 19, 28, 30, 38), defect_rate=5)
+    boundaries=(8, 12, 13, 19, 28, 30, 38), defect_rate=5, rich_start=5)
 
 C.standard_module(globals(), 'C04', PROFILE, 25, 400)
